@@ -269,13 +269,16 @@ type chainSpec struct {
 	// 1 = Verification trigger, the generated script is a witness verification script
 	//     (Blockchain.InitVerificationContext, read-only flags);
 	// 2 = Verification trigger, the entry context is the verify method of the probe syms[0]
-	//     (a deployed contract used as a witness), one VM run per target.
+	//     (a deployed contract used as a witness), one VM run per target;
+	// 3 = as 0, but the entry script calls the first probe WITHOUT ReadStates (all
+	//     frames below lack it): used only with configurations that never need a
+	//     contract's groups, whose answers do not depend on that flag.
 	mode int
 }
 
 func (c chainSpec) withMode(m int) chainSpec {
 	c.mode = m
-	c.id = []string{"", "V:", "verify:"}[m] + c.id
+	c.id = []string{"", "V:", "verify:", "noread:"}[m] + c.id
 	return c
 }
 
@@ -369,7 +372,11 @@ func pack(bw *io.BinWriter, n int) {
 
 // script builds a script frame (the entry script or a dynamic script) that
 // records the checks, invokes rest, records again and leaves [pre, sub, post].
-func (w *world) script(targets [][]byte, rest []sym, muts []int8) ([]byte, []frame) {
+func (w *world) script(targets [][]byte, rest []sym, muts []int8, firstCall ...callflag.CallFlag) ([]byte, []frame) {
+	flags := callflag.All
+	if len(firstCall) > 0 {
+		flags = firstCall[0]
+	}
 	buf := io.NewBufBinWriter()
 	bw := buf.BinWriter
 	var frames []frame
@@ -403,7 +410,7 @@ func (w *world) script(targets [][]byte, rest []sym, muts []int8) ([]byte, []fra
 		i := w.probeIdx(rest[0])
 		sub, fr := w.nextArg(targets, rest[1:], muts[1:])
 		frames = append([]frame{w.pframes[i]}, fr...)
-		emit.AppCall(bw, w.probes[i].Hash, "check", callflag.All, anyTargets(targets), sub, w.mutArg(i, muts[0]))
+		emit.AppCall(bw, w.probes[i].Hash, "check", flags, anyTargets(targets), sub, w.mutArg(i, muts[0]))
 	}
 	emitChecks(bw, targets)
 	pack(bw, 3)
